@@ -153,4 +153,11 @@ def execRuns {α : Type} (t : Tree α) : Heap α → List (RunSpec α) → Heap 
   | h, [] => h
   | h, r :: rs => let c := alloc t h; execRuns t (applyAll c.1 (r.writes c.2)) rs
 
+/-- every run writes only through its own copy -/
+def RunsLegal {α : Type} (t : Tree α) : Heap α → List (RunSpec α) → Prop
+  | _, [] => True
+  | h, r :: rs =>
+    let c := alloc t h
+    LegalAll c.2 c.1 (r.writes c.2) ∧ RunsLegal t (applyAll c.1 (r.writes c.2)) rs
+
 end PyxelModel.C06
